@@ -36,6 +36,19 @@ var vC06Docs = []string{
 	"JSIGHT 0.3\nGET /o/{o}/p/{p}/f/{o}/t/{p}\n  200 any\n",
 	// 9: two servers, two tags with descriptions, two enums used by one type, OperationIds
 	"JSIGHT 0.3\nSERVER @s1\n  BaseUrl \"https://a\"\nSERVER @s2\n  BaseUrl \"https://b\"\nTAG @x\n  Description\n    dx\nTAG @y\n  Description\n    dy\nENUM @e1\n[1]\nENUM @e2\n[2]\nTYPE @t\n{\n  \"p\": 1, // {enum: @e1}\n  \"q\": 2 // {enum: @e2}\n}\nGET /a\n  Tags @y @x\n  OperationId one\n  200 @t\nGET /b\n  Tags @x\n  OperationId two\n  200 @t\n",
+	// 10: three user types in a reference cycle, two of them with a fault of their own (which one is reported, and where?)
+	vC06Cycle(3, false),
+	// 11: the same cycle with an ENUM in the project and all three members faulty, defined in reverse order
+	vC06Cycle(7, true),
+}
+
+func vC06Cycle(faults int, enum bool) string {
+	order := 0
+	if enum {
+		order = 1
+	}
+	doc, _ := vTypeCycleDoc(faults, order, enum)
+	return doc
 }
 
 // HDeterminism (C06): the same project built with insertion-ordered maps and built
@@ -83,3 +96,62 @@ func HDeterminism() {
 }
 
 func init() { vRegister("HDeterminism", HDeterminism) }
+
+// HRebuild (C06, "nothing observable depends on prior builds"): two projects are built
+// one after the other in the same process; they live at the SAME paths and differ in the
+// (symbolic) content of the root file and of an included file. What the second build says
+// must be what the second project says — nothing of the first build may survive.
+func HRebuild() {
+	nameOf := func(id string) string {
+		b := vBytes(id, 2)
+		for _, c := range b {
+			vAssume(c >= 'a' && c <= 'z')
+		}
+		return string(b)
+	}
+	build := func(tag, typ, macro string, fail bool) (*JApiCore, *jerr.JApiError) {
+		inc := "TAG @" + tag + "\nTYPE @" + typ + "\n{}\n"
+		if fail {
+			inc += "TYPE @" + typ + "\n{}\n" // a duplicate: the build fails in the included file
+		}
+		root := "JSIGHT 0.3\nINCLUDE inc/defs.jst\nMACRO @" + macro + "\n(\n  200 @" + typ + "\n)\nGET /" + tag + "\n  Tags @" + tag + "\n  PASTE @" + macro + "\n"
+		return vBuildProject(root, map[string]string{"inc/defs.jst": inc})
+	}
+	// tag / path names: a symbolic choice among concrete names (a symbolic path would be
+	// concretised by the path-tag code); type and macro names: symbolic bytes
+	pick := func(id string) string {
+		if vBool(id) {
+			return "cats"
+		}
+		return "dogs"
+	}
+	t1, y1, m1 := pick("tagA"), nameOf("y1"), nameOf("m1")
+	t2, y2, m2 := pick("tagB"), nameOf("y2"), nameOf("m2")
+	fail1 := vBool("fail1")
+	_, je1 := build(t1, y1, m1, fail1)
+	if je1 != nil {
+		vObserve("err1", je1.Msg, int(je1.Index))
+	}
+	vAssert((je1 != nil) == fail1, "c06-first-build-verdict")
+	c2, je2 := build(t2, y2, m2, false)
+	vAssert(je2 == nil, "c06-second-build-depends-on-the-first")
+	want := []string{
+		"type @" + y2 + " \"\" jsight {}",
+		"tag @" + t2 + " \"@" + t2 + "\" <nil> [http GET /" + t2 + "]",
+	}
+	d := vDigest(c2)
+	for _, w := range want {
+		found := false
+		for _, l := range d {
+			if l == w {
+				found = true
+			}
+		}
+		vAssert(found, "c06-second-build-says-something-of-the-first")
+	}
+	vAssert(len(d) == 6, "c06-second-build-carries-extra-entities") // jsight, type, tag, http, response, body
+	vReach("rebuilt")
+	vObserve("ok", len(d))
+}
+
+func init() { vRegister("HRebuild", HRebuild) }
